@@ -148,7 +148,7 @@ fn gen_pair(rng: &mut Rng) -> (B, B, &'static str) {
 fn main() {
     let cli = Cli::parse();
     let mut rep = Report::new("C08", &cli);
-    rep.note("rule", json!("case = pair of valid boxes (sizes 0.1..1e3, coordinates up to 1e4, angle None/0/k*pi/2/|angle|>2pi/random) from families general / identical / almost-identical (GitHub #84) / nested / touching-edge-sharing / right-angle-cross / around-the-too_far-radius / axis-aligned. Reference: f64 convex intersection by vertex-inclusion + edge-crossing collection (not Sutherland-Hodgman) on the exact f32 parameters. Checked: intersection area, IoU = I/(A1+A2-I), range, symmetry, identical=1, presence/absence (only when clearly overlapping / clearly separated), rigid-motion invariance, closed-form axis-aligned agreement, too_far soundness, same through VisualObservationAttributes and sutherland_hodgman_clip. Non-trivial: reference overlap strictly between 1% and 99% of the smaller box; distinct by parameter bits."));
+    rep.note("rule", json!("case = pair of valid boxes (sizes 0.1..1e3, coordinates up to 1e4, angle None/0/k*pi/2/|angle|>2pi/random) from families general / identical / almost-identical (GitHub #84) / nested / touching-edge-sharing / right-angle-cross / around-the-too_far-radius / axis-aligned. Reference: f64 convex intersection by vertex-inclusion + edge-crossing collection (not Sutherland-Hodgman) on the exact f32 parameters. Checked: intersection area, IoU = I/(A1+A2-I), range, symmetry, identical=1, presence/absence (only when clearly overlapping / clearly separated), rigid-motion invariance, closed-form axis-aligned agreement, too_far soundness, same through VisualObservationAttributes and sutherland_hodgman_clip; every 4th pair is also evaluated with the first box brought to its parameters AFTER gen_vertices() had cached its polygon in an earlier state (through rotate_mut: all entry points; through public field writes: the entry points that copy their arguments). Non-trivial: reference overlap strictly between 1% and 99% of the smaller box; distinct by parameter bits."));
     rep.note("assumptions", json!(["area tolerance = 1e-6*min(A1,A2) + 4e-16*(coordinate scale)^2 (the latter is the f64 cancellation floor of cross products at that offset from the origin, scaled) ", "IoU judged to 1e-5 (the library's EPS)", "presence/absence judged only when reference overlap > 1e-4*min area or separation > 1e-4*size"]));
     let n = cli.cases(200_000, 20_000_000);
     for idx in cli.index_range(n) {
@@ -298,6 +298,57 @@ fn main() {
             rep.max("rigid_motion_diff_over_slack", (i2 - il).abs() / slack);
             if (i2 - il).abs() > slack {
                 rep.violation("C08/rigid-motion", idx, json!({"a": a.js(), "b": b.js(), "theta": th, "dx": dx, "dy": dy, "before": il, "after": i2, "slack": slack}));
+            }
+        }
+        // ---- boxes that carry cached vertices from an earlier state (gen_vertices, then changed)
+        if idx % 4 == 0 {
+            let area_of = |p: &geo::Polygon<f64>| geom::shoelace(&p.exterior().0.iter().map(|c| (c.x, c.y)).collect::<Vec<_>>());
+            // (M) changed through the API method rotate_mut only: every entry point must see the new box
+            if let Some(target_angle) = a.angle {
+                let mut m = Universal2DBox::new(a.xc, a.yc, Some(target_angle + 0.7), a.aspect, a.h);
+                m.gen_vertices();
+                m.rotate_mut(target_angle);
+                rep.count("stale_cache_cases/rotate_mut");
+                let i1 = Universal2DBox::intersection(&m, &lb);
+                if !((i1 - iref).abs() <= tol) {
+                    rep.violation("C08/stale-cache/rotate_mut/intersection", idx, det("intersection after gen_vertices + rotate_mut", i1, iref));
+                }
+                let i2 = area_of(&m.sutherland_hodgman_clip(lb.clone()));
+                if !((i2 - iref).abs() <= tol) {
+                    rep.violation("C08/stale-cache/rotate_mut/clip-method", idx, det("Universal2DBox::sutherland_hodgman_clip after gen_vertices + rotate_mut", i2, iref));
+                }
+            }
+            // (F) changed through the public fields: the entry points that work on copies must see the new box
+            let mut f = Universal2DBox::new(a.xc + 3.0 * a.h, a.yc - a.h, Some(a.angle.unwrap_or(0.0) + 1.1), a.aspect * 1.7, a.h * 0.6);
+            f.gen_vertices();
+            f.xc = a.xc;
+            f.yc = a.yc;
+            f.angle = a.angle;
+            f.aspect = a.aspect;
+            f.height = a.h;
+            rep.count("stale_cache_cases/field-writes");
+            let i3 = Universal2DBox::intersection(&f, &lb);
+            if !((i3 - iref).abs() <= tol) {
+                rep.violation("C08/stale-cache/field-writes/intersection", idx, det("intersection after gen_vertices + field writes", i3, iref));
+            }
+            let i4 = Universal2DBox::intersection(&lb, &f);
+            if !((i4 - iref).abs() <= tol) {
+                rep.violation("C08/stale-cache/field-writes/intersection-swapped", idx, det("intersection after gen_vertices + field writes (second argument)", i4, iref));
+            }
+            let m5 = Universal2DBox::calculate_metric_object(&Some(&f), &Some(&lb)).map(|v| v as f64);
+            if let Some(v) = m5 {
+                if !((v - iou_ref).abs() <= iou_tol) {
+                    rep.violation("C08/stale-cache/field-writes/iou", idx, det("IoU after gen_vertices + field writes", v, iou_ref));
+                }
+            } else if clearly_overlap {
+                rep.violation("C08/stale-cache/field-writes/iou", idx, det("IoU absent after gen_vertices + field writes", -1.0, iou_ref));
+            }
+            let vf = VisualObservationAttributes::new(1.0, f.clone());
+            let m6 = VisualObservationAttributes::calculate_metric_object(&Some(&vf), &Some(&vb)).map(|v| v as f64);
+            if let Some(v) = m6 {
+                if !((v - iou_ref).abs() <= iou_tol) {
+                    rep.violation("C08/stale-cache/field-writes/iou-visual-attrs", idx, det("IoU (visual attrs) after gen_vertices + field writes", v, iou_ref));
+                }
             }
         }
         if iref > 0.01 * amin && iref < 0.99 * amin {
